@@ -43,6 +43,10 @@ THEOREMS = ["JanetModel.Props.C03." + t for t in (
     "abstract_equals_equivalence_and_hash", "abstract_compare_antisymm", "abstract_compare_triple", "abstract_compare_eq_zero_iff_equals",
     "abstract_compare_total_order", "abstract_model_extends_value_model", "compare_abstract_is_type_then_hook", "inttypes_hooks_lawful",
     "abstract_dispatch_tie",
+    # session 4b: the pointer short-cuts of janet_equals are reflexivity on content
+    "equals_pointer_shortcuts_are_reflexivity", "pointer_shortcut_tie",
+    # session 4b: equal lookups => MapEquiv => `=` structs
+    "struct_by_lookups", "map_equiv_of_equal_lookups",
 )]
 # which law of a symbol-cache scenario to report first (the most direct statement of the property comes first)
 SYM_LAW_ORDER = ["gensym-duplicates-live-symbol", "symbol-duplicate-live", "symbol-duplicate-after-collect", "compare-zero-iff-equals", "symbol-identity",
